@@ -216,7 +216,7 @@ Proof.
       change (eval m) with M in Hodd. rewrite Hodd in Hpe. cbn in Hpe.
       pose proof (Z.div_mod (eval a + M) 2 ltac:(lia)) as D1.
       assert (carry = 0 \/ carry = 1) as [-> | ->] by lia.
-      + change (0 =? 0) with true. cbv iota. f_equal. lia.
+      + change (0 =? 0) with true. cbv iota. rewrite Z.add_0_r. f_equal. lia.
       + change (1 =? 0) with false. cbv iota.
         pose proof (Z.div_mod (eval if_odd) 2 ltac:(lia)) as D2.
         assert (eval if_odd mod 2 = 0).
@@ -278,13 +278,14 @@ Proof.
       change (eval m) with M in Hodd. rewrite Hodd in Hpe2. cbn in Hpe2.
       pose proof (Z.div_mod (eval a + M) 2 ltac:(lia)) as D1.
       assert (carry = 0 \/ carry = 1) as [-> | ->] by lia.
-      + change (0 =? 0) with true. cbv iota. f_equal. lia.
+      + change (0 =? 0) with true. cbv iota. rewrite Z.add_0_r. f_equal. lia.
       + change (1 =? 0) with false. cbv iota.
         pose proof (Z.div_mod (eval s) 2 ltac:(lia)) as D2.
         assert (eval s mod 2 = 0).
         { replace (eval s) with (eval a + M + (- top_bit n) * 2) by lia. rewrite Z.mod_add by lia. exact Hpe2. }
         apply Z.mul_cancel_l with (p := 2); lia.
-    - assert (carry = 0) as -> by lia. change (0 =? 0) with true. cbv iota. f_equal. lia. }
+    - pose proof (eval_nonneg s Ws). assert (carry = 0 \/ carry = 1) as [-> | ->] by lia; [|lia].
+      change (0 =? 0) with true. cbv iota. rewrite Z.add_0_r. f_equal. lia. }
   rewrite Hval. pose proof (eval_to_limbs (length a) (half_mod M (eval a))) as Et.
   rewrite La in *. nrm. rewrite Z.mod_small in Et by lia.
   split; [|exact Et]. split; [apply wf_to_limbs|]. split; [apply length_to_limbs|]. rewrite Et. exact Hb.
